@@ -22,7 +22,7 @@ var (
 	amt2Re    = regexp.MustCompile(`^-?\d+\.\d{2}$`)
 )
 
-var namesCSV = gen.NameOpts{Unicode: true, Spaces: true, Slash: true, Punct: ",,,\"\".;:'()&%+*=!?@_-#\\", MaxLen: 14}
+var namesCSV = gen.NameOpts{Unicode: true, Spaces: true, Slash: true, Punct: ",,,\"\".;:'()&%+*=!?@_-#\\", MaxLen: 14, Edge: gen.EdgePunct}
 
 // c13Num: quantities that stress the printed precision: ties, tiny, large, negative
 func c13Num(r *rand.Rand) gen.Num {
